@@ -57,7 +57,7 @@ def _run_case(case: dict, repo: str) -> dict:
                 except SyntaxError as e:
                     res.update(outcome="broken-case", detail=f"mutant does not compile: {e}")
                     return res
-        env = dict(os.environ, VERIF_SCRATCH_EVIDENCE=os.path.join(d, "_evidence"))
+        env = dict(os.environ, VERIF_SCRATCH_EVIDENCE=os.path.join(d, "_evidence"), VERIF_CACHE_DIR=os.path.join(d, "_cache"))
         p = subprocess.run([PY, "-m", "sa.main", case["property"], "--tier", "quick", "--repo", d],
                            cwd=VERIF, capture_output=True, text=True, env=env, timeout=600)
         out = p.stdout
